@@ -10,6 +10,7 @@ after each op the touched file's segment shape and the handle's pointer are prin
 import ArvVerif.Base.MD5
 import ArvVerif.Base.Loop
 import ArvVerif.Model.C08_FS
+import ArvVerif.Model.C08_Ext
 open ArvVerif ArvVerif.C08
 
 def md5Loc (b : Bytes) : Loc :=
@@ -169,18 +170,56 @@ the filesystem: by `C08_flush_invisible*` the time at which a flush lands change
 case that contains `hold` the Go driver prints no segment shapes (they depend on when the flushes
 land) and this driver does the same; the abstract results must still be identical. -/
 inductive DOp
-  | op (o : Op)
+  | op (o : XOp)
   | noop
 
-def parseDOp (s : String) : Option DOp :=
-  if s == "hold" || s == "release" then some DOp.noop else (parseOp s).map DOp.op
+/-- the ops of the extension layer (`Model/C08_Ext.lean`): `hreaddirn,<h>,<count>` (paged Readdir),
+`fssize` (collectionFileSystem.Size), `memsize` (MemorySize) -/
+def parseXOp (s : String) : Option XOp :=
+  match s.splitOn "," with
+  | ["hreaddirn", h, n] =>
+    match h.toNat?, n.toNat? with
+    | some h, some n => some (XOp.hreaddirN h n)
+    | _, _ => none
+  | ["fssize"] => some XOp.fsSize
+  | ["memsize"] => some XOp.memSize
+  | _ => (parseOp s).map XOp.base
 
-def runOps (impl : FileImpl FileNode Ptr Store) (shapes : Bool) : CFS → List DOp → List String → List String
+def parseDOp (s : String) : Option DOp :=
+  if s == "hold" || s == "release" then some DOp.noop else (parseXOp s).map DOp.op
+
+abbrev CXFS := XFS FileNode Ptr Store
+
+def entriesStr (l : List Entry) : String :=
+  if l.isEmpty then "-" else "+".intercalate (sortStrings (l.map (fun e => infoStr e.1 e.2.1 e.2.2)))
+
+/-- A page is printed as `<number of entries>,<err>`; the entries themselves come in Go map order, so
+only when a call hands out the last entries of the snapshot the whole snapshot is printed (sorted),
+which the Go driver assembles from the pages it received. -/
+def xresStr (x' : CXFS) (op : XOp) (async : Bool) : XRes → String
+  | XRes.base r => resStr r
+  | XRes.size n =>
+    (match op with
+     | XOp.memSize => if async then "-" else toString n
+     | _ => toString n)
+  | XRes.page p e =>
+    toString p.length ++ "," ++ errName e ++
+      (match op with
+       | XOp.hreaddirN h _ =>
+         (match getUnread x'.unread h with
+          | some u => if e = Err.ok ∧ u.pos ≥ u.snap.length then "=" ++ entriesStr u.snap else ""
+          | none => "")
+       | _ => "")
+
+def runOps (impl : FileImpl FileNode Ptr Store) (shapes : Bool) : CXFS → List DOp → List String → List String
   | _, [], acc => acc.reverse
-  | s, DOp.noop :: ops, acc => runOps impl shapes s ops ("ok" :: acc)
-  | s, DOp.op op :: ops, acc =>
-    let (s', r) := step impl s op
-    runOps impl shapes s' ops ((resStr r ++ (if shapes then shapeAfter s' op r else "")) :: acc)
+  | x, DOp.noop :: ops, acc => runOps impl shapes x ops ("ok" :: acc)
+  | x, DOp.op op :: ops, acc =>
+    let (x', r) := stepX impl memOf x op
+    let sh := match op, r with
+      | XOp.base o, XRes.base r => if shapes then shapeAfter x'.fs o r else ""
+      | _, _ => ""
+    runOps impl shapes x' ops ((xresStr x' op (!shapes) r ++ sh) :: acc)
 
 def stepLine (line : String) : String :=
   match fields line with
@@ -197,7 +236,7 @@ def stepLine (line : String) : String :=
         (match loadManifest md5Loc streams with
          | none => "load=err"
          | some s0 =>
-           let outs := runOps (concImpl md5Loc max) (!async) s0 ops []
+           let outs := runOps (concImpl md5Loc max) (!async) ⟨s0, []⟩ ops []
            ";".intercalate ((if async then "load=ok" else "load=ok#" ++ allShapes s0) :: outs))
       | _, _ => "bad-op"
   | _ => "bad-op"
